@@ -108,6 +108,8 @@ def generate(rng: random.Random, batch: dict) -> dict:
         B = [[0.0] * cd for _ in range(sd)]     # equations ignore the control
     K = [[_rf(rng, -1.0, 1.0) for _ in range(sd)] for _ in range(cd)]
     p = rng.choice([0.0, 1.0, -1.0, _rf(rng, -3.0, 3.0)])
+    # an explicit time term makes the controller depend on t as well
+    tq = rng.choice([0.0, 0.0, 0.0, 0.05, -0.2, 1.0])
     legs = []
     for _ in range(rng.choice([1, 1, 2, 3])):
         s0 = [_rf(rng, -1.0, 1.0) for _ in range(sd)]
@@ -141,7 +143,8 @@ def generate(rng: random.Random, batch: dict) -> dict:
                  "bad": rng.choice(sorted(BAD))}
     use = rng.choice([-1, -1, 1, sd])
     gamma = rng.choice([0.1, 0.1, 0.5, 1.0, 0.0])
-    return {"sd": sd, "cd": cd, "A": A, "B": B, "K": K, "p": p, "legs": legs,
+    return {"sd": sd, "cd": cd, "A": A, "B": B, "K": K, "p": p, "tq": tq,
+            "legs": legs,
             "test_steps": tsteps, "train_steps": rsteps,
             "test_time": ttime, "train_time": rtime, "fault": fault,
             "use_state_dims": use, "gamma": gamma}
@@ -298,13 +301,15 @@ def execute(doc: dict) -> dict:
 
         # plain loops in a fixed order: the result must not depend on the
         # memory layout of the arrays run_ode happens to pass (BLAS would)
+        tq = float(doc.get("tq", 0.0))
+
         def base_ctrl(state, t, prm, out):
             for i in range(cd):
                 acc = 0.0
                 row = Kl[i]
                 for j in range(sd):
                     acc += row[j] * float(state[j])
-                out[i] = prm * acc
+                out[i] = prm * acc + tq * t
 
         def base_eq(state, t, ctrl, out):
             for i in range(sd):
@@ -315,7 +320,7 @@ def execute(doc: dict) -> dict:
                 for j in range(cd):
                     acc += rb[j] * float(ctrl[j])
                 out[i] = acc
-        closed = A + params * (B @ K)
+        closed = A + params * (B @ K) if tq == 0.0 else None
 
     def pure_controller(state, t, prm, out):
         base_ctrl(state, t, prm, out)
